@@ -444,6 +444,12 @@ func checkXzWriter(prop string) func(a *checkArgs, r *Result) error {
 			d = append(d, make([]byte, 3*4096+k%7)...)
 			cases = append(cases, xzCase{Op: "xzwrite", Name: fmt.Sprintf("align/%d/m%d", k, m), Cfg: xzCfg{LC: 3, PB: 2, DictCap: 4096, BufSize: []int{4096, 273, 1000}[k%3], Matcher: m}, Data: hxe(d), Parts: []int{len(d)}})
 		}
+		// a ring only just larger than a full chunk with a large look-ahead, incompressible data
+		for i := 0; i < 4; i++ {
+			d := genRandom(rng, 140000+rng.Intn(40000))
+			c := xzCfg{LC: 3, PB: 2, DictCap: 56000 + rng.Intn(9000), BufSize: []int{8192, 16384}[i%2], Matcher: 0}
+			cases = append(cases, xzCase{Op: "xzwrite", Name: fmt.Sprintf("tight-ring/%d", len(d)), Cfg: c, Data: hxe(d), Parts: []int{len(d)}})
+		}
 		for i := 0; i < big*2; i++ { // regime switches: several raw chunks, then compressible data, and back
 			var d []byte
 			for k := 0; k < 2+rng.Intn(3); k++ {
